@@ -22,9 +22,19 @@ func c06Markup(tp *Tape, env *Env) (*Plan, *Violation) {
 		`[plural value={$n} one="100%" other="%%" /]`, `[a x="\\"]t[/a]`, `[a x="%" y=% z=]u[/a]`, `[plural value={$n} one="1" /]`,
 		`[ordinal value={$n} one="a" two="b" other="%" /]`, `[select value={$n} 1="one" 2="two" /]`, `[plural value={$s} other="%" /]`,
 		`[plural value={$n} one="%"]open[/plural]`, `[select value={$s} a="%\\"]o[/]`, `[nomarkup]%\\[/nomarkup]`, `[b]%[/b]\\`,
+		// values at the edge of what a number in markup can be, written in the script or held by the host as a string
+		`[ordinal value={$t} one="%st" two="%nd" few="%rd" other="%th" /]`, `[plural value={$t} one="% thing" other="% things" /]`,
+		`[select value={$t} 1="one" a="A" other="%" /]`, `[ordinal value=9999999999999999999 one="%st" two="%nd" few="%rd" other="%th" /]`,
+		`[plural value=18446744073709551613 one="1" other="%" /]`, `[ordinal value=-7 one="a" two="b" few="c" other="%" /]`,
+		`[plural value=9223372036854775808 one="1" two="2" few="f" many="m" other="%" /]`, `[a n={$t} m=-{$t} k={$t}.5]v[/a]`,
+		`[ordinal value={$n} one="%st" two="%nd" few="%rd" other="%th" /]`, `[ordinal value=12345678901234567891 one="%" two="%" few="%" other="%" /]`,
 	}
+	// what a host may hold in a string variable that a script shows inside a marker
+	awkward := []string{"3", "22", "9999999999999999999", "18446744073709551613", "12345678901234567891", "9223372036854775807", "9223372036854775808",
+		"-9223372036854775808", "-9223372036854775809", "-1", "-13", "-0", "00000000000000000000000011", "99999999999999999999999999999999999999999", "1e309", "1e5", "0x10", "1_000",
+		"+5", ".5", "5.", "1.5", "-1.5", "NaN", "Inf", "", " ", "٣", "１２", "1 2", "4294967296", "2147483648", "340282366920938463463374607431768211456"}
 	var sb strings.Builder
-	sb.WriteString("title: Start\n---\n<<declare $n = 0>>\n<<declare $s = \"a\">>\n<<jump Hub>>\n===\ntitle: Hub\n---\n")
+	sb.WriteString("title: Start\n---\n<<declare $n = 0>>\n<<declare $s = \"a\">>\n<<declare $t = \"" + awkward[tp.Int(0, 4, "tinit")] + "\">>\n<<jump Hub>>\n===\ntitle: Hub\n---\n")
 	nl := tp.Int(2, 6, "nlines")
 	for i := 0; i < nl; i++ {
 		if tp.Chance(60, "exotic") {
@@ -37,12 +47,17 @@ func c06Markup(tp *Tape, env *Env) (*Plan, *Violation) {
 	if tp.Bool("optiongroup") {
 		fmt.Fprintf(&sb, "-> O1 %s\n-> O2 plain\n", exotic[tp.Int(0, len(exotic)-1, "exoticopt")])
 	}
-	vals := []string{"1", "2", "3", "11", "13", "23", "0", "1.5", "-1", "1000000"}
+	vals := []string{"1", "2", "3", "11", "13", "23", "0", "1.5", "-1", "1000000", "9007199254740993", "9223372036854775807", "-13", "4294967297"}
 	svals := []string{"b", "c", "zz", "", "a"}
 	sb.WriteString("<<set $n = " + vals[tp.Int(0, len(vals)-1, "nval")] + " + $n * 10>>\n<<set $s = \"" + svals[tp.Int(0, len(svals)-1, "sval")] + "\">>\n")
 	sb.WriteString("<<if $n < 100000>>\n    <<jump Hub>>\n<<endif>>\n===\n")
-	w := World{Readers: []ReaderSpec{{Text: sb.String()}}, Host: HostSpec{Storer: "default", Seed: "s1"}}
-	plan := &Plan{Harness: 1, Property: "C06", World: w, Extra: map[string]any{"markup": true}}
+	// the host rewrites $t (a string of its own) between calls
+	var tvals []string
+	for i, n := 0, tp.Int(0, 8, "ntvals"); i < n; i++ {
+		tvals = append(tvals, awkward[tp.Int(0, len(awkward)-1, "tval")])
+	}
+	w := World{Readers: []ReaderSpec{{Text: sb.String()}}, Host: HostSpec{Storer: "mem", Seed: "s1"}}
+	plan := &Plan{Harness: 1, Property: "C06", World: w, Extra: map[string]any{"markup": true, "tvals": tvals}}
 	env.St.sample(map[string]any{"script": sb.String()})
 	journal(plan)
 	return plan, c06MarkupExec(plan, env.St)
@@ -58,7 +73,14 @@ func c06MarkupExec(plan *Plan, st *Stats) *Violation {
 	}
 	defer h.Close()
 	errs := 0
+	tvals, _ := decodeExtra[[]string](plan, "tvals")
 	for i := 0; i < 40; i++ {
+		if i > 0 && i <= len(tvals) && h.st != nil {
+			hostWrite(h.st, "t", strV(tvals[i-1]))
+			if st != nil {
+				st.fault("host_string_awkward_number_in_marker")
+			}
+		}
 		r := h.Next(0)
 		if r.Kind == rPanic {
 			return &Violation{Clause: "C06.panic", OpIndex: i, Observed: r, Note: "Next panicked while showing a line or an option with markup"}
